@@ -447,10 +447,10 @@ func init() {
 					l.writeHold.Store(nil)
 					t.close(false)
 				case "timeouts-of-different-lengths-in-adverse-order":
-					// nobody parks the writer here: each caller gets its time-out at its own deadline (slack 400 ms),
+					// nobody parks the writer here: each caller gets its time-out at its own deadline (slack 600 ms),
 					// whatever the order in which the commands were written
 					join()
-					l.slackMs.Store(400)
+					l.slackMs.Store(600)
 					for _, ms := range []int{1500, 150, 600, 150} {
 						call(t, key, time.Duration(ms)*time.Millisecond, &wg)
 						time.Sleep(5 * time.Millisecond)
@@ -623,7 +623,7 @@ func init() {
 		l.writeHold.Store(&hold)
 		before := t.nrecv.Load()
 		t.send(t.frame(0x0002, nil)) // the next inbound data
-		t.waitRecv(before+6, 3*time.Second)
+		t.waitRecv(before+6, 10*time.Second)
 		close(held)
 		l.writeHold.Store(nil)
 		time.Sleep(200 * time.Millisecond)
